@@ -11,7 +11,7 @@ REGS = "aZ9-_~!;"
 HX = "09afAF"
 SCHEMES = ["gemini://", "GEMINI://", "Gemini://"]
 PORTS = ["", ":1965", ":", ":7", ":0", ":65535", ":01965"]
-V6 = ["[2001:db8::%s]", "[::%s]", "[fe80::%s%%25eth0]", "[::ffff:192.0.2.%s]"]
+V6 = ["[2001:db8::%s]", "[::%s]", "[fe80::%s%%25eth0]", "[::ffff:192.0.2.%s]", "[FE80::%s%%25Eth0]"]
 
 
 def _same(u):
@@ -43,6 +43,21 @@ def norm_host(sk: int, pk: int, a: int, shape: int) -> bool:
         parse_url(u)
     except ValueError:
         return True                       # not an accepted URL: outside the property
+    return V(_same(u))
+
+
+def norm_pcthost(sk: int, pk: int, hx: int, shape: int) -> bool:
+    """
+    pre: 0 <= sk < 3 and 0 <= pk < 7 and 0 <= hx < 6 and 0 <= shape < 2
+    post: _
+    """
+    # reg-name with a pct-encoded octet followed by capitals (urllib only lower-cases up to the '%')
+    host = ["a%2" + HX[hx] + "b.Example.COM", "X%4" + HX[hx] + "Y"][shape]
+    u = SCHEMES[sk] + host + PORTS[pk] + "/p"
+    try:
+        parse_url(u)
+    except ValueError:
+        return True
     return V(_same(u))
 
 
@@ -79,7 +94,7 @@ def norm_query(a: int, b: int, shape: int) -> bool:
 
 def norm_v6(vk: int, d: int, pk: int, shape: int) -> bool:
     """
-    pre: 0 <= vk < 4 and 0 <= d < 6 and 0 <= pk < 4 and 0 <= shape < 3
+    pre: 0 <= vk < 5 and 0 <= d < 6 and 0 <= pk < 4 and 0 <= shape < 3
     post: _
     """
     digit = HX[d]
@@ -126,6 +141,9 @@ OBLIGATIONS = [
        symbolic="host character: symbolic index into 8 reg-name characters (a Z 9 - _ ~ ! ;) (upper/lower/digit/unreserved/sub-delims)", note="discrete: str.lower() on a symbolic character is beyond the solver budget",
        enum="3 scheme spellings x 7 port forms (absent, :1965, empty, :7, :0, :65535, :01965) x 3 tails",
        functions=["parse_url", "normalize_url", "GeminiRequest.from_line", "validate_url"]),
+    Ob("norm_pcthost", norm_pcthost, quick=240, thorough=900,
+       symbolic="host with a pct-encoded octet (hex digit by symbolic index) followed by upper-case letters; 3 scheme spellings x 7 port forms",
+       functions=["parse_url", "normalize_url", "GeminiRequest.from_line"], note="discrete dimensions"),
     Ob("norm_path", norm_path, quick=240, thorough=900,
        symbolic="path/query character (any pchar code point incl. ';' ':' '@' and sub-delims)",
        enum="3 port forms x 5 path/query shapes incl. ;params and pct-encoding",
@@ -134,7 +152,7 @@ OBLIGATIONS = [
        symbolic="2 query characters (pchar | / | ?)", enum="4 shapes",
        functions=["parse_url", "normalize_url", "GeminiRequest.from_line"]),
     Ob("norm_v6", norm_v6, quick=240, thorough=900,
-       symbolic="hex digit index 0..5 (0 9 a f A F), literal form 0..3 (incl. zone id and v4-mapped), port form 0..3, shape 0..2",
+       symbolic="hex digit index 0..5 (0 9 a f A F), literal form 0..4 (incl. lower/upper-case zone id and v4-mapped), port form 0..3, shape 0..2",
        functions=["parse_url", "normalize_url", "GeminiRequest.from_line"],
        note="discrete dimensions: the engine forks per index value"),
     Ob("accepts_v6", accepts_v6, quick=120, thorough=300,
